@@ -41,6 +41,7 @@ def wfE : Expr → Bool
   | .regexMap _ _ _ => true
   | .mapDrop m ps => wfE m && !ps.isEmpty
   | .labelsFp => true
+  | .quantileAgg _ _ _ => true
 def wfEs : List Expr → Bool
   | [] => true
   | e :: es => wfE e && wfEs es
